@@ -442,6 +442,12 @@ func pipeSpecFromInput(input string, dir string) *PipeSpec {
 		MaxHops: atoi("maxhops", 0), SchedSeed: sched, IdleMs: 700, TimeoutMs: atoi("timeout", 60000), Async: atoi("async", 0) == 1,
 		RateLimit: atoi("rl", 0) == 1, Proxy: atoi("proxy", 0) == 1, OnDisk: atoi("ondisk", 0) == 1, LocalDedupe: atoi("dedupe", 0) == 1,
 		Footprint: atoi("footprint", 0) == 1, HTTPTimeout: atoi("httpto", 0), DiskLowMs: atoi("disklow", 0)}
+	if v, ok := kv["slow"]; ok { // slow=<point>:<ms>
+		if p := strings.SplitN(v, ":", 2); len(p) == 2 {
+			sp.SlowPoint = p[0]
+			sp.SlowMs, _ = strconv.Atoi(p[1])
+		}
+	}
 	n := atoi("seeds", 3)
 	for i := 0; i < n; i++ {
 		host := "{A}"
